@@ -6,7 +6,7 @@
 tree=$1; tier=${2:-quick}; shift; shift
 props=${@:-C01 C02 C03 C04 C05 C06 C07 C08 C09 C10 C11 C12 C13 C14 C15 C16 C17 C18 C19}
 out=$(mktemp -d /tmp/mutrun.XXXXXX)
-cd /verif
+cd ${VERIF_HOME:-/verif}
 for p in $props; do
   VERIF_REPO=$tree VERIF_EVIDENCE_DIR=$out/ev VERIF_REPLAY_DIR=$out/rp timeout 3600 ./check $p --tier $tier > $out/$p.log 2>&1
   rc=$?
